@@ -978,6 +978,73 @@ func (g *c19pg) stmt(c c19ctx) {
 	}
 }
 
+// recovering emits a function with a named result that panics (often) and recovers in a deferred closure;
+// the closure executes 0-3 statements (fingerprint updates, breakpoints, calls) BEFORE its recover() call, so
+// that a script can stop inside the deferred function before the recover, and modifies the result after it.
+func (g *c19pg) recovering(fn c19fn, c c19ctx) {
+	r := g.r
+	level := c.level
+	g.emit(level, false, fmt.Sprintf("func %s(a int) (r int) {", fn.name))
+	g.k++
+	g.emit(level, false, fmt.Sprintf("x := a + %d", g.k%5))
+	g.upd(c)
+	g.k++
+	name := fmt.Sprintf("d%d", g.k)
+	g.emit(level, false, name+" :=")
+	in := c19ctx{level: level + 1, ret: "return", budget: 1, deferd: true}
+	g.emit(in.level, true, "func() {")
+	for n := r.Intn(4); n > 0; n-- {
+		switch k := r.Intn(10); {
+		case k < 5:
+			g.upd(in)
+		case k < 8:
+			g.nbp++
+			g.emit(in.level, true, []string{`"break"`, `_ = "break"`}[r.Intn(2)])
+		default:
+			if fn2, ok := g.callee(in.level); ok && !fn2.void {
+				g.emit(in.level, true, fmt.Sprintf("r += %s(r %% 4)", fn2.name))
+			} else {
+				g.upd(in)
+			}
+		}
+	}
+	g.emit(in.level, true, "if e := recover(); e != nil {")
+	g.upd(in)
+	g.emit(in.level, true, "r = r - x - 1")
+	if r.Intn(3) == 0 {
+		g.nbp++
+		g.emit(in.level, true, `"break"`)
+	}
+	g.emit(in.level, true, "}")
+	if r.Intn(2) == 0 {
+		g.emit(in.level, true, "r += 1000")
+	}
+	if r.Intn(3) == 0 {
+		g.emit(in.level, true, "x := 1")
+		g.body(in)
+	}
+	g.upd(in)
+	g.emit(in.level, true, "return")
+	g.emit(in.level, true, "}")
+	g.emit(level, false, "defer "+name+"()")
+	if r.Intn(2) == 0 {
+		g.body(c)
+	}
+	if r.Intn(10) < 8 {
+		g.k++
+		g.emit(level, false, fmt.Sprintf("if x%%2 == %d {", r.Intn(2)))
+		g.upd(c)
+		g.emit(level, false, fmt.Sprintf(`panic("p%d")`, g.k))
+		g.emit(level, false, "}")
+	}
+	if r.Intn(2) == 0 {
+		g.stmt(c)
+	}
+	g.emit(level, false, "r = x")
+	g.emit(level, false, "return r")
+	g.emit(level, false, "}")
+}
+
 // c19program returns (prelude, main)
 func c19program(r *rand.Rand) (string, string) {
 	g := &c19pg{r: r, funcs: map[int][]c19fn{}}
@@ -990,6 +1057,11 @@ func c19program(r *rand.Rand) (string, string) {
 		for i := 0; i < nf; i++ {
 			fn := c19fn{name: fmt.Sprintf("f%d_%d", level, i), void: r.Intn(3) == 0 && !(level == 1 && i == 0)}
 			c := c19ctx{level: level, ret: "return x", budget: 3}
+			if g.panics && !fn.void && r.Intn(2) == 0 {
+				g.recovering(fn, c)
+				g.funcs[level] = append(g.funcs[level], fn)
+				continue
+			}
 			if fn.void {
 				c.ret = "return"
 				g.emit(level, false, fmt.Sprintf("func %s(a int) {", fn.name))
@@ -1083,6 +1155,11 @@ func init() {
 	c19fixed = append(c19fixed, "var t uint64\nfunc g(a int) int { //L2\nt = t*31 + 1 //L2\n\"break\" //L2\nreturn a //L2\n} //L2\nfunc f(a int) int { //L1\nx := g(a) //L1\nif x == 1 { //L1\nt = t*31 + 2 //L1\nreturn x //L1\n} //L1\nt = t*31 + 3 //L1\nreturn x + 10 //L1\n} //L1\n---\nf(1)")
 }
 
+func init() {
+	// panic recovered in a deferred closure that stops (breakpoint) before its recover() and modifies the named result
+	c19fixed = append(c19fixed, "var t uint64\nfunc safe(a int) (r int) { //L2\nd1 := //L2\nfunc() { //L3D\nt = t*31 + 1 //L3D\n\"break\" //L3D\nif e := recover(); e != nil { //L3D\nt = t*31 + 2 //L3D\nr = -a //L3D\n} //L3D\nr += 1000 //L3D\nreturn //L3D\n} //L3D\ndefer d1() //L2\nt = t*31 + 3 //L2\nif a%2 == 1 { //L2\npanic(\"odd\") //L2\n} //L2\nr = a * 2 //L2\nreturn r //L2\n} //L2\nfunc top(a int) int { //L1\nx := safe(a) //L1\nt = t*31 + 4 //L1\ny := safe(a + 1) //L1\nreturn x*100 + y //L1\n} //L1\n---\ntop(2)")
+}
+
 func c19traceOf(prelude, main string) ([]c19Event, bool) {
 	tc := &c19tracer{}
 	out := c19run(prelude, main, 'D', tc, &c19script{})
@@ -1105,14 +1182,22 @@ func c19gen(r *rand.Rand, tier string, emit func(string)) {
 			emit(c19mkop("D", nil, nil, prelude, main))
 			continue
 		}
+		// programs that panic: Interp.Debug and no `continue`, so that every frame is single-stepped (see c19randScript)
+		mayPanic := strings.Contains(prelude, "panic(")
+		alphabet := []string{"s", "n", "f", "c"}
+		if mayPanic {
+			alphabet = []string{"s", "n", "f"}
+		}
 		var rec func(seq []string)
 		rec = func(seq []string) {
 			emit(c19mkop("D", seq, tr, prelude, main))
-			emit(c19mkop("E", seq, tr, prelude, main))
+			if !mayPanic {
+				emit(c19mkop("E", seq, tr, prelude, main))
+			}
 			if len(seq) == L {
 				return
 			}
-			for _, c := range []string{"s", "n", "f", "c"} {
+			for _, c := range alphabet {
 				rec(append(append([]string{}, seq...), c))
 			}
 		}
@@ -1427,7 +1512,7 @@ func init() {
 	_ = sort.Strings
 	register(&Prop{
 		ID: "C19",
-		Rule: "bounded-exhaustive: 3 fixed programs (nested calls, loop, breakpoint, deferred closure, early return) x every command sequence over {s,n,f,c} of length<=4 (quick) / <=6 (thorough) x {Interp.Debug, Interp.Eval}; " +
+		Rule: "bounded-exhaustive: 4 fixed programs (nested calls, loop, breakpoint, deferred closure, early return, panic recovered in a deferred closure with a breakpoint before recover(): {s,n,f} under Interp.Debug only) x every command sequence over {s,n,f,c} of length<=4 (quick) / <=6 (thorough) x {Interp.Debug, Interp.Eval}; " +
 			"random: programs with 1-3 call levels, closures, loops, if/switch, deferred closures/calls, panic/recover, breakpoint statements, early returns x random scripts of (abbreviated) step/next/finish/continue, noise lines, empty lines, kill, EOF; " +
 			"every statement updates a fingerprint so each observed stop is matched to its unique position in the complete single-step trace. Non-trivial: >=2 documented stops and >=2 distinct resume commands.",
 		Gen:        c19gen,
